@@ -115,6 +115,19 @@ def _receives_rows(conds, mask: str) -> bool:
     return any(c in conds for c in ok)
 
 
+def _implied_by_child(cond, side):
+    """A condition that follows from `self.<side> is not None` prunes nothing: the negation of a
+    conjunction one of whose operands is `self.<side> is None` (the early exit of a terminal node)."""
+    if not (isinstance(cond, tuple) and len(cond) == 2 and cond[1] is False):
+        return False
+    try:
+        t = ast.parse(cond[0], mode="eval").body
+    except SyntaxError:
+        return False
+    ops = t.values if isinstance(t, ast.BoolOp) and isinstance(t.op, ast.And) else [t]
+    return any(src_of(o) == f"self.{side} is None" for o in ops)
+
+
 def check_a(ck, repo):
     ci = repo.cls(MOD, NODE)
     for m in SITES:
@@ -164,7 +177,7 @@ def check_a(ck, repo):
             exists = cond_text(f"self.{side} is not None") in conds
             nonempty = _receives_rows(conds, mask)
             ck.verdict(exists and nonempty, "C10.a", fi, f"{m}: guard of child '{side}'", "recursion iff the child exists and receives at least one row", f"{m}: the call into child '{side}' is not guarded by exactly (child exists) and (at least one row routed {side}); conditions on every path to it: {sorted(conds)}")
-            extra = [c_ for c_ in conds if c_ != cond_text(f"self.{side} is not None") and not _receives_rows([c_], mask)]
+            extra = [c_ for c_ in conds if c_ != cond_text(f"self.{side} is not None") and not _receives_rows([c_], mask) and not _implied_by_child(c_, side)]
             ck.verdict(not extra, "C10.a", fi, f"{m}: no further condition on child '{side}'", "no other condition prunes the traversal", f"{m}: the call into child '{side}' is also conditioned by {extra}: predict_proba and decision_path may stop at different nodes")
 
 
